@@ -488,11 +488,15 @@ def check_fill_queue(ctx, rep, rules=('B-acc', 'X-opsites', 'W-iter')):
                 seen_h = set()
                 for hp in hps:
                     for he in hp.calls():
-                        if he['callee'] != PP or he['line'] in seen_h:
+                        if he['callee'] != PP:
                             continue
-                        seen_h.add(he['line'])
+                        ca = canon_args(tuple(subst_params(a, e['args']) for a in he['args']))
+                        k_ = (he['line'], noepoch(ca))     # one site can be reached with different kinds of ring
+                        if k_ in seen_h:
+                            continue
+                        seen_h.add(k_)
                         rep.analysed.add(e['callee'])
-                        yield (e['line'], he['line']), canon_args(tuple(subst_params(a, e['args']) for a in he['args']))
+                        yield (e['line'], he['line']), ca
 
     for p in ps:
         for line_, a in pp_calls(p):
@@ -510,9 +514,10 @@ def check_fill_queue(ctx, rep, rules=('B-acc', 'X-opsites', 'W-iter')):
             queue_local = qa[0] == 'ref' and qa[1][0][0] == 'loc'
             if qa[0] == 'param' and param_name(qa) == 'event_queue':
                 queue_local = True      # handed on by a helper
-            calls.setdefault(e['line'], []).append((ring_kind, subj, box, ext, queue_local, a[2], p))
+            # one instance per call site and kind of ring it is reached with (a loop over `once(exterior).chain(interiors)` has one site)
+            calls.setdefault((e['line'], ring_kind, show(noepoch(subj))), []).append((ring_kind, subj, box, ext, queue_local, a[2], p))
     n = 0
-    for line, lst in sorted(calls.items(), key=lambda kv: str(kv[0])):
+    for (line, _rk, _sj), lst in sorted(calls.items(), key=lambda kv: str(kv[0])):
         ring_kind, subj, box, ext, queue_local, cid, p = lst[0]
         n += 1
         is_subj = subj[1] if sym.is_const(subj) else None
@@ -574,6 +579,8 @@ def check_fill_queue(ctx, rep, rules=('B-acc', 'X-opsites', 'W-iter')):
             if e['k'] == 'call' and e['depth'] == 0:
                 if actual is None and e['callee'] in descended_names:
                     continue            # analysed inside the helper
+                if re.search(r'(iter::once|Iterator::(chain|map|zip|enumerate|by_ref)|IntoIterator>?::into_iter|::next)$', e['callee']):
+                    continue            # iterator plumbing carries a value into the items; what the items are used for is judged there
                 for i, a in enumerate(e['args']):
                     if any(x[0] == 'param' and x[2] == 'operation' for x in sym.walk(sub(a, actual))):
                         uses.add((short(e['callee']), i))
